@@ -11,7 +11,7 @@ import (
 func init() {
 	register(&propDef{
 		ID:          "C11",
-		Explanation: "Structural necessary conditions of TCP framing, decided on SSA for every caller of decodePacket that reads from a bufio.Reader (the per-connection reader goroutine): (a) the bytes handed to decodePacket are bytes.NewBuffer(b) where b is a buffer of exactly L bytes (fresh make([]byte, L) or b[:L]) that was completely filled from the connection's reader by a full-read idiom (io.ReadFull / io.ReadAtLeast(..., len(b))) on the path to the call, whose error edge leaves the loop; L is the result of the length function applied to the SAME reader, and that function only Peeks 4 bytes (non-consuming) and decodes the big-endian uint16 at offset 2; nothing else consumes the reader in the loop; the reader is created once per connection (outside the loop); (b) every error edge in the loop (length, full read, decodePacket) leaves the loop - none reaches the back edge, so nothing is delivered after the first undecodable message; (c) the reader goroutine defers close(doneCh), the handler blocks on doneCh/stopChan and defers conn.Close(); the reader is used by this goroutine only. (d) no-alias: if any decoder case keeps the input slice the buffer must be fresh per message; constant slicing of the message buffer needs a dominating length test; the reader has no other consumer in the reader goroutine, its creator or its sibling closures. Not decided: behaviour under real segmentation is implied by (a), not observed; other connections are unaffected only as far as no state but C12's is shared. Later additions: one helper level between the read loop and decodePacket is followed (the helper must return the decoding error); every path back to the loop head passes the full read; no deadline is armed on collector connections. Round-five additions: the length function refuses only lengths no valid message can have (below the 16-byte header); the per-domain template map shared by all connections is removed only when empty.",
+		Explanation: "Structural necessary conditions of TCP framing, decided on SSA for every caller of decodePacket that reads from a bufio.Reader (the per-connection reader goroutine): (a) the bytes handed to decodePacket are bytes.NewBuffer(b) where b is a buffer of exactly L bytes (fresh make([]byte, L) or b[:L]) that was completely filled from the connection's reader by a full-read idiom (io.ReadFull / io.ReadAtLeast(..., len(b))) on the path to the call, whose error edge leaves the loop; L is the result of the length function applied to the SAME reader, and that function only Peeks 4 bytes (non-consuming) and decodes the big-endian uint16 at offset 2; nothing else consumes the reader in the loop; the reader is created once per connection (outside the loop); (b) every error edge in the loop (length, full read, decodePacket) leaves the loop - none reaches the back edge, so nothing is delivered after the first undecodable message; (c) the reader goroutine defers close(doneCh), the handler blocks on doneCh/stopChan and defers conn.Close(); the reader is used by this goroutine only. (d) no-alias: if any decoder case keeps the input slice the buffer must be fresh per message; constant slicing of the message buffer needs a dominating length test; the reader has no other consumer in the reader goroutine, its creator or its sibling closures. Not decided: behaviour under real segmentation is implied by (a), not observed; other connections are unaffected only as far as no state but C12's is shared. Later additions: one helper level between the read loop and decodePacket is followed (the helper must return the decoding error); every path back to the loop head passes the full read; no deadline is armed on collector connections. Round-five additions: the length function refuses only lengths no valid message can have (below the 16-byte header); the per-domain template map shared by all connections is removed only when empty. Round-six additions: template deadlines / timers are armed under protocol == udp only (a stream's templates live as long as the session); an error merged into a variable is followed on paths.",
 		Assume:      []string{"io.ReadFull fills the buffer or returns an error", "bufio.Reader.Peek does not consume"},
 		Run:         runC11,
 	})
@@ -21,6 +21,8 @@ func runC11(p *Prog, r *Report, tier string) {
 	checkFraming(p, r)
 	// connections share the template store: a malformed template on one connection must not cost another its templates
 	checkDomainPrune(p, r, "R-OWNER.domain-prune")
+	// over a stream a template lives as long as the session: what is delivered must not depend on when segments arrive
+	checkExpiryUDPOnly(p, r, "R-OWNER.expiry-udp-only")
 }
 
 // checkFraming holds C11's rules; C01 imports them (fidelity over TCP/TLS needs exact framing).
@@ -435,7 +437,7 @@ func checkFraming(p *Prog, r *Report) {
 					}
 				}
 				for _, ev := range evs {
-					if errEdgeLeavesLoop(ev, loopHead) {
+					if errEdgeLeavesLoop(ev, loopHead) || errPathsLeaveLoop(c, ev, loopHead) {
 						leaves = true
 					}
 				}
@@ -589,4 +591,33 @@ func literalCallee(c *ssa.CallCommon) *ssa.Function {
 		}
 	}
 	return nil
+}
+
+// errPathsLeaveLoop: the path form of errEdgeLeavesLoop - with the call's error assumed non-nil, no enumerated path from
+// the call reaches the head of the read loop again (the error may be merged into a variable that is tested later).
+func errPathsLeaveLoop(c *ssa.Call, ev ssa.Value, loopHead *ssa.BasicBlock) bool {
+	b := c.Block()
+	idx := -1
+	for i, in := range b.Instrs {
+		if in == ssa.Instruction(c) {
+			idx = i
+		}
+	}
+	if idx < 0 {
+		return false
+	}
+	back, n := false, 0
+	wk := &absWalker{MaxPaths: 8192, LoopHead: loopHead}
+	wk.OnEnd = func(s *absState, last ssa.Instruction) {
+		n++
+		switch last.(type) {
+		case *ssa.Return, *ssa.Panic:
+		default:
+			back = true
+		}
+	}
+	s := newAbsState()
+	s.bools["nil:"+s.key(ev)] = false
+	wk.walk(s, b, idx+1)
+	return n > 0 && !back && !wk.Overflow && !wk.Looped
 }
